@@ -634,6 +634,64 @@ Definition parse_ipport (rs : resolver) (s : bytes) : res (N * bytes * N) :=
   end.
 
 (* ------------------------------------------------------------------ *)
+(* cmdline.py:82-97  the --listen dispatch: the comma separated elements are
+   read one by one with parse_ipport; an element of family AF_INET6 becomes
+   the IPv6 listen address, any other the IPv4 one (a later element of a
+   family replaces an earlier one).  No other option takes part: with
+   --listen given, --disable-ipv6 is not consulted; without it the IPv4
+   address is "auto" and the IPv6 one "auto" unless --disable-ipv6. *)
+
+Inductive listen_ip :=
+| LAuto                           (* "auto" *)
+| LNone                           (* None *)
+| LAddr (ip : bytes) (port : N).  (* (ip, port) *)
+
+Definition is_fam6 (x : N * bytes * N) : bool := fst (fst x) =? AF_INET6.
+Definition slot_of (x : N * bytes * N) : listen_ip := LAddr (snd (fst x)) (snd x).
+
+(* the loop body, over the already parsed elements *)
+Fixpoint listen_assign (l : list (N * bytes * N)) (v6 v4 : listen_ip) : listen_ip * listen_ip :=
+  match l with
+  | [] => (v6, v4)
+  | x :: t => if is_fam6 x then listen_assign t (slot_of x) v4 else listen_assign t v6 (slot_of x)
+  end.
+
+(* the loop as written: the first element that does not parse raises *)
+Fixpoint listen_loop (rs : resolver) (items : list bytes) (v6 v4 : listen_ip) : res (listen_ip * listen_ip) :=
+  match items with
+  | [] => Ok (v6, v4)
+  | s :: t =>
+    match parse_ipport rs s with
+    | Raise e => Raise e
+    | Ok x => if is_fam6 x then listen_loop rs t (slot_of x) v4 else listen_loop rs t v6 (slot_of x)
+    end
+  end.
+
+(* -> (listenip_v6, listenip_v4) as handed to client.main;  `if opt.listen:` = given and not empty *)
+Definition listen_dispatch (rs : resolver) (listen : option bytes) (disable_ipv6 : bool)
+  : res (listen_ip * listen_ip) :=
+  match listen with
+  | Some s => if nonempty s then listen_loop rs (split_on "," s) LNone LNone
+              else Ok (if disable_ipv6 then LNone else LAuto, LAuto)
+  | None => Ok (if disable_ipv6 then LNone else LAuto, LAuto)
+  end.
+
+(* spec side: the last element of a family, None when the text has none *)
+Fixpoint last_slot (p : N * bytes * N -> bool) (l : list (N * bytes * N)) (cur : listen_ip) : listen_ip :=
+  match l with
+  | [] => cur
+  | x :: t => last_slot p t (if p x then slot_of x else cur)
+  end.
+
+(* spec side, with no hypothesis on the elements: a slot is empty or holds an element of the text, of the slot's family *)
+Definition slot_from (rs : resolver) (all : list bytes) (want6 : bool) (v : listen_ip) : Prop :=
+  match v with
+  | LNone => True
+  | LAuto => False
+  | LAddr ip port => exists s fam, In s all /\ parse_ipport rs s = Ok (fam, ip, port) /\ (fam =? AF_INET6) = want6
+  end.
+
+(* ------------------------------------------------------------------ *)
 (* ssh.py:33  parse_hostport                                           *)
 
 (* ipaddress.ip_address(text) for a text that is not a dotted quad:
